@@ -22,6 +22,15 @@ Theorem C06_encode_writer : forall v w,
                    else Panic PkAssert.
 Proof. exact encode_refines. Qed.
 
+(** the AVP header: M set, H only on hidden AVPs, reserved bits clear, vendor 0, exact 10-bit length *)
+Theorem C06_avp_header : forall a, avp_fits a = true ->
+  exists o1 rest, s_enc_avp a = o1 :: (avp_total a mod 256) :: 0 :: 0 :: rest /\
+    rest = be16 (attr_type a) ++ s_value a /\
+    N.testbit o1 0 = true /\ N.testbit o1 1 = is_hidden a /\
+    N.testbit o1 2 = false /\ N.testbit o1 3 = false /\ N.testbit o1 4 = false /\ N.testbit o1 5 = false /\
+    256 * (o1 / 64) + avp_total a mod 256 = avp_total a.
+Proof. exact enc_avp_header. Qed.
+
 Example C06_example :
   m_encode (Control {| c_length := 0; c_tunnel := 1; c_session := 2; c_ns := 3; c_nr := 4;
                        c_avps := [AMessageType Hello; ABytes HostName [97; 98; 99]] |}) [255]
@@ -31,3 +40,4 @@ Proof. vm_compute. reflexivity. Qed.
 Print Assumptions C06_encode_refines_spec.
 Print Assumptions C06_avp_refines_spec.
 Print Assumptions C06_encode_writer.
+Print Assumptions C06_avp_header.
